@@ -386,9 +386,12 @@ type simEnv struct {
 	// a class of input that has produced its oracle finding twice is no longer generated: the remaining budget of
 	// findings (hx.Report.TooMany) stays available for anything else
 	dupDrops, pastEOFs, spins int
+	allocs                    []namedAlloc
 }
 
-var sizeClasses = []int{0, 1, 2, 7, 100, 1000, 4095, 4096, 4097, 30000, 65535, 65536, 65537, 131071, 131072, 131073}
+// (incl. the size classes of the aligned allocator, 32 ... 32768, +-1)
+var sizeClasses = []int{0, 1, 2, 7, 31, 32, 33, 63, 64, 65, 100, 127, 128, 129, 255, 256, 257, 511, 512, 513, 1000, 1023, 1024, 1025, 2047, 2048, 2049, 4095, 4096, 4097,
+	8191, 8192, 8193, 16383, 16384, 16385, 30000, 32767, 32768, 32769, 65535, 65536, 65537, 131071, 131072, 131073}
 var maxClasses = []int{0, 0, 1, 100, 4096, 65535, 65536, 65537, 200000, 1 << 20}
 
 func pickSize(r *rand.Rand, budget int) int {
@@ -502,6 +505,7 @@ type simCase struct {
 	nextSrc    int
 	budget     int
 	backlog    bool
+	alloc      string
 	sawDupDrop bool
 	pastEOF    bool
 	degenerate bool
@@ -513,7 +517,7 @@ func (sc *simCase) replay(extra map[string]interface{}) map[string]interface{} {
 	m := map[string]interface{}{
 		"harness": "connio", "tier": "sim", "seed": sc.env.rep.Seed, "case": sc.idx,
 		"rerun":   "build/bin/connio -replay <this file> -model build/ocaml/connio/model -out -   (executes \"ops\" on a fresh connection of \"conn\"; the recorded ops include the final drain/close)",
-		"conn":    map[string]interface{}{"type": typName(sc.typ), "MaxWriteBufferSize": sc.max},
+		"conn":    map[string]interface{}{"type": typName(sc.typ), "MaxWriteBufferSize": sc.max, "BodyAllocator": sc.alloc},
 		"files":   fileSizes,
 		"ops":     append([]string{}, sc.lines...),
 		"payload": "byte pos of source src = pbyte(src,pos) (cmd/connio/main.go); 'w src len ks' Write, 'v k (src len)* ks' Writev, 's fid pos req dupfail ks' Sendfile, 'f ks' flush, 'c' Close; ks: tK accept K bytes, a EAGAIN, i EINTR, eN errno N",
@@ -1043,9 +1047,10 @@ func (sc *simCase) scenarioOps(k int) []*op {
 
 // fixedCase is a recorded case (replay file): connection parameters and the operation lines.
 type fixedCase struct {
-	typ string
-	max int
-	ops []string
+	alloc string
+	typ   string
+	max   int
+	ops   []string
 }
 
 func runSimCase(env *simEnv, idx int, fixed *fixedCase) {
@@ -1072,6 +1077,17 @@ func runSimCase(env *simEnv, idx int, fixed *fixedCase) {
 	if r.Intn(30) == 0 {
 		sc.budget = 24 << 20
 	}
+	al := env.allocs[r.Intn(len(env.allocs))]
+	if fixed != nil && fixed.alloc != "" {
+		for _, a := range env.allocs {
+			if a.name == fixed.alloc {
+				al = a
+			}
+		}
+	}
+	sc.alloc = al.name
+	env.eng.SetBodyAllocator(al.a)
+	rep.Stat("alloc." + al.name)
 	scenario := -1
 	if fixed == nil && r.Intn(8) == 0 {
 		scenario = r.Intn(6) // (queue holds only X) x (next call Y with an accepting kernel)
@@ -1197,13 +1213,13 @@ type realCombo struct {
 	name    string
 }
 
-func realOnce(rep *hx.Report, cb realCombo, seed int64, totalBytes int, dir string, files []*tfile) (string, map[string]interface{}) {
+func realOnce(rep *hx.Report, cb realCombo, al namedAlloc, seed int64, totalBytes int, dir string, files []*tfile) (string, map[string]interface{}) {
 	addr := "127.0.0.1:0"
 	if cb.network == "unix" {
 		addr = filepath.Join(dir, fmt.Sprintf("s-%s-%d.sock", cb.name, seed))
 		os.Remove(addr)
 	}
-	g := nbio.NewEngine(nbio.Config{Network: cb.network, Addrs: []string{addr}, NPoller: 1, EpollMod: cb.mod, EPOLLONESHOT: cb.oneshot})
+	g := nbio.NewEngine(nbio.Config{Network: cb.network, Addrs: []string{addr}, NPoller: 1, EpollMod: cb.mod, EPOLLONESHOT: cb.oneshot, BodyAllocator: al.a})
 	opened := make(chan *nbio.Conn, 1)
 	var closeMu sync.Mutex
 	var closeErr error
@@ -1355,7 +1371,7 @@ func realOnce(rep *hx.Report, cb realCombo, seed int64, totalBytes int, dir stri
 	closeMu.Unlock()
 	wmu.Lock()
 	defer wmu.Unlock()
-	info := map[string]interface{}{"harness": "connio", "tier": "real", "combo": cb.name, "seed": seed, "ops": ops,
+	info := map[string]interface{}{"harness": "connio", "tier": "real", "combo": cb.name, "BodyAllocator": al.name, "seed": seed, "ops": ops,
 		"accepted": len(expected), "received": len(got), "closed": cf, "close_error": fmt.Sprint(ce)}
 	if writerMsg != "" {
 		info["writer"] = writerMsg
@@ -1396,13 +1412,13 @@ func record(src, bodyLen int) []byte {
 	return b
 }
 
-func realConcurrent(cb realCombo, seed int64, callsPerWriter int, dir string) (string, map[string]interface{}) {
+func realConcurrent(cb realCombo, al namedAlloc, seed int64, callsPerWriter int, dir string) (string, map[string]interface{}) {
 	addr := "127.0.0.1:0"
 	if cb.network == "unix" {
 		addr = filepath.Join(dir, fmt.Sprintf("c-%s-%d.sock", cb.name, seed))
 		os.Remove(addr)
 	}
-	g := nbio.NewEngine(nbio.Config{Network: cb.network, Addrs: []string{addr}, NPoller: 1, EpollMod: cb.mod, EPOLLONESHOT: cb.oneshot})
+	g := nbio.NewEngine(nbio.Config{Network: cb.network, Addrs: []string{addr}, NPoller: 1, EpollMod: cb.mod, EPOLLONESHOT: cb.oneshot, BodyAllocator: al.a})
 	opened := make(chan *nbio.Conn, 1)
 	g.OnOpen(func(c *nbio.Conn) { opened <- c })
 	g.OnData(func(c *nbio.Conn, data []byte) {})
@@ -1571,7 +1587,7 @@ func realConcurrent(cb realCombo, seed int64, callsPerWriter int, dir string) (s
 	}
 	mu.Lock()
 	defer mu.Unlock()
-	info := map[string]interface{}{"harness": "connio", "tier": "real-concurrent", "combo": cb.name, "seed": seed, "writers": writers,
+	info := map[string]interface{}{"harness": "connio", "tier": "real-concurrent", "combo": cb.name, "BodyAllocator": al.name, "seed": seed, "writers": writers,
 		"accepted_bytes": total, "received_bytes": received}
 	if failure != "" {
 		info["writer"] = failure
@@ -1605,13 +1621,16 @@ func detail(info map[string]interface{}) string {
 }
 
 func realTier(rep *hx.Report, seed int64, mib int, dir string, files []*tfile) {
+	allocs := allocators()
 	combos := []realCombo{
 		{"tcp", nbio.EPOLLLT, 0, "tcp-LT"}, {"tcp", nbio.EPOLLET, 0, "tcp-ET"}, {"tcp", nbio.EPOLLET, nbio.EPOLLONESHOT, "tcp-ET-ONESHOT"},
 		{"unix", nbio.EPOLLLT, 0, "unix-LT"}, {"unix", nbio.EPOLLET, 0, "unix-ET"}, {"unix", nbio.EPOLLET, nbio.EPOLLONESHOT, "unix-ET-ONESHOT"},
 	}
 	for i, cb := range combos {
 		s := seed*7919 + int64(i)
-		sig, info := realOnce(rep, cb, s, mib<<20, dir, files)
+		al := allocs[(i+int(seed))%len(allocs)] // every allocator is used by at least one combination, rotating with the seed
+		rep.Stat("real.alloc." + al.name)
+		sig, info := realOnce(rep, cb, al, s, mib<<20, dir, files)
 		if sig == "" && info != nil {
 			hx.Fatal("real tier %s: %v", cb.name, info["infra"])
 		}
@@ -1620,7 +1639,7 @@ func realTier(rep *hx.Report, seed int64, mib int, dir string, files []*tfile) {
 			rep.Stat("real.rerun." + cb.name)
 			sig2, info2 := sig, info
 			if !strings.HasPrefix(sig, "queue-holds") { // (that one is deterministic: no second 15 s stall)
-				sig2, info2 = realOnce(rep, cb, s, mib<<20, dir, files)
+				sig2, info2 = realOnce(rep, cb, al, s, mib<<20, dir, files)
 			}
 			if sig2 != "" {
 				rep.Add(hx.Finding{Kind: "oracle", Property: "C01", Signature: sig2 + ":" + cb.name,
@@ -1634,13 +1653,13 @@ func realTier(rep *hx.Report, seed int64, mib int, dir string, files []*tfile) {
 
 		// concurrent writers
 		per := 70 * mib
-		csig, cinfo := realConcurrent(cb, s, per, dir)
+		csig, cinfo := realConcurrent(cb, al, s, per, dir)
 		if csig == "" && cinfo != nil {
 			hx.Fatal("real tier %s: %v", cb.name, cinfo["infra"])
 		}
 		if csig != "" {
 			rep.Stat("real.rerun.concurrent." + cb.name)
-			csig, cinfo = realConcurrent(cb, s, per, dir)
+			csig, cinfo = realConcurrent(cb, al, s, per, dir)
 			if csig != "" {
 				rep.Add(hx.Finding{Kind: "oracle", Property: "C01", Signature: csig + ":concurrent:" + cb.name,
 					What: fmt.Sprintf("real %s sockets, 3 concurrent writers: %s (accepted %v bytes, received %v)", cb.name, detail(cinfo), cinfo["accepted_bytes"], cinfo["received_bytes"]), Replay: cinfo})
@@ -1673,6 +1692,9 @@ func loadReplay(path string) *fixedCase {
 		if m, ok := c["MaxWriteBufferSize"].(float64); ok {
 			fc.max = int(m)
 		}
+		if a, ok := c["BodyAllocator"].(string); ok {
+			fc.alloc = a
+		}
 	}
 	ops, _ := top["ops"].([]interface{})
 	for _, o := range ops {
@@ -1702,7 +1724,7 @@ func main() {
 	logging.SetLevel(logging.LevelNone)
 
 	rep := hx.NewReport("connio", *seed)
-	rep.Rule = "sim tier: per case a stream Conn (TCP/Unix) on a simulated descriptor, MaxWriteBufferSize in {0,1,100,4096,64Ki-1,64Ki,64Ki+1,200000,1Mi}, 3-16 operations " +
+	rep.Rule = "every tier runs with Config.BodyAllocator in {default MemPool, mempool.NewAligned(), mempool.NewSTD(), an always-moving poisoning allocator of the harness}; sizes include the aligned size classes 32..32768 +-1. sim tier: per case a stream Conn (TCP/Unix) on a simulated descriptor, MaxWriteBufferSize in {0,1,100,4096,64Ki-1,64Ki,64Ki+1,200000,1Mi}, 3-16 operations " +
 		"(Write, Writev of 0-8 buffers incl. empty ones, Sendfile of 6 files with offsets 0/mid/last/end/past-end and lengths 0/-1/1/exact/too long, flush, Close) with sizes 0,1,2,...,4095-4097,64Ki+-1,128Ki+-1,1Mi+-1 " +
 		"and kernel scripts (accept all / 1 / n-1 / random / 64Ki+-1, EAGAIN, EINTR bursts, fatal errno, Dup failure), then a drain and Close; non-trivial = a backlog formed; distinct = distinct (op, result, queue length) sequences. " +
 		"concurrent tier: 2-3 writer goroutines (1-2 calls each: Write/Writev/Sendfile with sizes around MaxWriteBufferSize and partial/EAGAIN/EINTR kernel answers) and a flushing goroutine on one Conn under the cooperative scheduler, OnWrittenSize handler that yields, random seeded schedules; results must equal the sequential model's for some order consistent with real time; non-trivial = calls overlapped. " +
@@ -1719,7 +1741,7 @@ func main() {
 	}
 
 	mc, ms := nbio.VerifConstants()
-	env := &simEnv{rep: rep, files: files, maxcache: mc, maxsend: ms}
+	env := &simEnv{rep: rep, files: files, maxcache: mc, maxsend: ms, allocs: allocators()}
 	env.eng = nbio.VerifNewSimEngine(nbio.Config{})
 	if *model != "" {
 		env.model = hx.StartModel(*model)
